@@ -3,7 +3,8 @@ import os
 from .. import core, patterns as P
 from . import c01
 
-PAR = {"params", "lookup-panic", "registration-panic", "trace"}
+# (an unsound match is a C02 matter too: the values of a route that cannot produce the path do not substitute back to it)
+PAR = {"params", "unsound-match", "lookup-panic", "registration-panic", "trace"}
 
 
 def run(chk):
@@ -19,6 +20,10 @@ def run(chk):
     c01.run_instance(chk, "params-abc", pool, 6 if thorough else 5, 1, chars=("/", "a", "b", "1", "."), only=PAR)
     c01.run_instance(chk, "params-digits", [p for p in pool if "dig" in p or "num" in p or "word" in p or "all" in p],
                      6 if thorough else 5, 2 if thorough else 1, chars=("/", "1", "0", "a", "_"), only=PAR)
+    # UseEncodedPath: the router matches the ESCAPED path, '%' is a character like any other, parameters are the
+    # escaped substrings (also inside handlers, also on cache hits)
+    c01.run_instance(chk, "params-encoded", ["/a/{x}", "/{x}/{y}", "/a/{x:all}", "/a[/{x}]"], 6, 1, chars=("/", "a", "%", "2", "5"), only=PAR,
+                     harness_env={"VERIF_MATCH_ENCODED": "1"})
     if thorough:
         c01.run_instance(chk, "params-pairs", pool[::2], 5, 2, only=PAR)
     from . import c08
